@@ -19,6 +19,8 @@ RULE = ("rule-based state machine over the real module globals (guard, error-sup
         "objects as before. Non-trivial = history with an exceptional exit at depth >= 2 or a false guard under a true "
         "one, and every deterministic deep nesting (up to 150 / 200 levels, mixed forms, normal and exceptional exit); distinct by "
         "history digest.")
+RULE += " Extensions (seeded rounds 10-15): guarded generator functions consumed step by step, argument passing through the decorator, abandoned block contexts finalised by the garbage collector at a later step, warnings turned into errors, refused attempts to open a block inside an open block."
+
 
 
 class Sentinel(Exception):
@@ -430,18 +432,31 @@ def make_machine(stats):
                 return
             self.advance(self.gens[k % len(self.gens)])
 
-        @rule(v=st.integers(0, 1), form=st.sampled_from(["lc", "bool", "int1"]), a=st.integers(-3, 3), extra=st.lists(st.integers(0, 3), max_size=2))
-        def call_args(self, v, form, a, extra):
-            """the decorator hands positional, keyword and star arguments through and returns the function's own result"""
-            self.hist.append(["call_args", v, form, a, extra])
+        @rule(v=st.integers(0, 1), form=st.sampled_from(["lc", "bool", "int1"]), a=st.integers(-3, 3), extra=st.lists(st.integers(0, 3), max_size=2),
+              kwname=st.sampled_from(["other", "cond", "fn", "args", "kwargs", "bak", "guard", "ret", "self", "cls", "f", "x_"]))
+        def call_args(self, v, form, a, extra, kwname="other"):
+            """the decorator hands positional, keyword and star arguments through - whatever the keywords are called (the names of
+            its own parameters and locals included) - and returns the function's own result"""
+            self.hist.append(["call_args", v, form, a, extra, kwname])
             before = self.triple()
             marker = object()
 
             def fn(x, *rest, key=None, **kw):
                 return (x, rest, key, kw, marker)
-            got = self.rt.guarded(self.mkcond(v, form))(fn)(a, *extra, key="k", other=extra)
-            if got != (a, tuple(extra), "k", {"other": extra}, marker) or got[4] is not marker:
-                self.fail("guarded(cond)(fn)(%r, *%r, key='k', other=...) returned %r" % (a, extra, got[:4]))
+            wrapped = self.rt.guarded(self.mkcond(v, form))(fn)
+            inside = []
+            got = wrapped(a, *extra, key="k", **{kwname: extra})
+            if kwname == "cond":
+                # a keyword called like the decorator's own parameter is an argument of fn, not a new condition for the region
+                def fn2(x, cond=None):
+                    inside.append(self.rt.guard)
+                    return cond
+                g_expected = self.rt.guarded(self.mkcond(v, form))
+                r2 = g_expected(fn2)(a, cond=7)
+                if r2 != 7:
+                    self.fail("guarded(c)(fn)(x, cond=7): fn received cond=%r" % (r2,))
+            if got != (a, tuple(extra), "k", {kwname: extra}, marker) or got[4] is not marker:
+                self.fail("guarded(cond)(fn)(%r, *%r, key='k', %s=...) returned %r" % (a, extra, kwname, got[:4]))
             if any(x is not y for x, y in zip(before, self.triple())):
                 self.fail("guard state after a guarded call with keyword arguments is not the state before it")
 
